@@ -310,8 +310,16 @@ pub mod iri {
 	pub fn extra_collection_lookups(_t: &[u8], _bt: &std::collections::BTreeSet<RiBuf>, _hs: &std::collections::HashSet<RiBuf>) -> Vec<(&'static str, bool)> {
 		Vec::new()
 	}
-	pub fn extra_str_eq(_kind: super::Kind, _t: &[u8], _u: &str) -> Vec<(&'static str, bool)> {
-		Vec::new()
+	/// Comparisons of the owned IRI path with strings (IRI family only).
+	pub fn extra_str_eq(kind: super::Kind, t: &[u8], u: &str) -> Vec<(&'static str, bool)> {
+		let mut v = Vec::new();
+		if kind == super::Kind::Path {
+			let o = PathBuf::new(std::str::from_utf8(t).unwrap().to_string()).ok().unwrap();
+			v.push(("PathBuf==str", o == *u));
+			v.push(("PathBuf==&str", o == u));
+			v.push(("PathBuf==String", o == u.to_string()));
+		}
+		v
 	}
 	/// Routes that only exist in the IRI family: the from-bytes constructors.
 	pub fn extra_routes(kind: super::Kind, b: &[u8], expect: bool, probs: &mut Vec<(String, String)>, n: &mut u64) {
